@@ -250,7 +250,7 @@ fn arc_case(ctx: &mut Ctx, index: u64, a: P, b: P, c: P, bufs: &mut CurveBuffers
         let nexp = if 2.0 * rad <= 0.1 { 2.0 } else { (range / (2.0 * (1.0 - 0.1 / rad).acos())).ceil().max(2.0) };
         // worst-case f32 conditioning of the circumcentre, in px
         let cond = rad * 16.0 * ulp32(m * m) / d.abs() + ulp32(rad + m) * 8.0;
-        if nexp > 1100.0 || rad > 1e6 {
+        if nexp > 1015.0 || rad > 1e6 {
             if bezier_like() {
                 ctx.count("arc_enormous_fallback");
                 judged = true;
@@ -261,7 +261,7 @@ fn arc_case(ctx: &mut Ctx, index: u64, a: P, b: P, c: P, bufs: &mut CurveBuffers
             }
             return;
         }
-        if nexp >= 900.0 || cond > 0.05 {
+        if nexp >= 985.0 || cond > 0.05 {
             // only structural checks
             ctx.count("arc_ill_conditioned");
             return;
